@@ -90,6 +90,13 @@ func (World) Generate(r *engine.RNG, tier string) *engine.Script {
 }
 
 type liveValue struct {
+	// full observation (with Bytes / Verify / Options) for LeaseSet2 and
+	// MetaLeaseSet; judged only while no overwrite has touched the exempt byte
+	// ranges (options, entry properties) of the buffer region it was parsed from
+	fullBase      string
+	fullOpt       *obs.Options
+	exempt        [][2]int // absolute [start,end) ranges in its buffer
+	exemptTouched bool
 	id    int
 	ad    *adapters.Adapter
 	val   any
@@ -207,6 +214,19 @@ func execute(s *engine.Script, o *engine.Outcome) {
 			}
 		}
 	}
+	// touched marks the live values of buffer b whose exempt ranges overlap [a,e)
+	touched := func(b, a, e int) {
+		for _, lv := range live {
+			if lv.buf != b || lv.exemptTouched {
+				continue
+			}
+			for _, r := range lv.exempt {
+				if a < r[1] && r[0] < e {
+					lv.exemptTouched = true
+				}
+			}
+		}
+	}
 	check := func(what, class string) {
 		for _, lv := range live {
 			if lv.dead {
@@ -221,6 +241,18 @@ func execute(s *engine.Script, o *engine.Outcome) {
 				lv.dead = true
 				o.Violate("C08/"+class+"/"+lv.ad.Name, "value %d (%s, parsed from buffer %d at offset %d) changed after %s: %s", lv.id, lv.ad.Name, lv.buf, lv.off, what, diff(lv.base, got))
 				o.Notes[fmt.Sprintf("value%d_frame_hex", lv.id)] = fmt.Sprintf("%x", lv.frame.Bytes)
+				continue
+			}
+			if lv.fullOpt != nil && !lv.exemptTouched {
+				var full string
+				if o.Guard("observe(full) "+lv.ad.Name, func() { full = obs.Observe(lv.val, lv.fullOpt) }) {
+					continue
+				}
+				o.Probe("full_observations_of_ls2_mls_with_options_untouched")
+				if full != lv.fullBase {
+					lv.dead = true
+					o.Violate("C08/"+class+"/"+lv.ad.Name+"/serialisers-and-verify", "value %d (%s): the options bytes of its buffer were never touched, yet Bytes()/Verify() changed after %s: %s", lv.id, lv.ad.Name, what, diff(lv.fullBase, full))
+				}
 			}
 		}
 	}
@@ -254,6 +286,7 @@ func execute(s *engine.Script, o *engine.Outcome) {
 				o.Fault("recycle")
 			}
 			// the transport writes the packet into its buffer
+			touched(b, off, off+n+64)
 			copy(pool[b][off:], rf.Bytes)
 			end := off + n
 			if follow {
@@ -279,12 +312,20 @@ func execute(s *engine.Script, o *engine.Outcome) {
 			}
 			lv := &liveValue{id: i, ad: ad, val: res.Val, buf: b, off: off, frame: rf}
 			switch ad.Name {
-			case "ReadLeaseSet2":
+			case "ReadLeaseSet2", "ReadMetaLeaseSet":
 				c := ls2Opt
+				if ad.Name == "ReadMetaLeaseSet" {
+					c = mlsOpt
+				}
 				lv.opt = &c
-			case "ReadMetaLeaseSet":
-				c := mlsOpt
-				lv.opt = &c
+				fo := plainOpt
+				fo.OnPanic = onPanic
+				lv.fullOpt = &fo
+				for _, fl := range rf.Fields {
+					if fl.Class == refmodel.ClsOptions || fl.Class == refmodel.ClsEntryProps {
+						lv.exempt = append(lv.exempt, [2]int{off + fl.Start, off + fl.End})
+					}
+				}
 			default:
 				c := plainOpt
 				lv.opt = &c
@@ -292,6 +333,11 @@ func execute(s *engine.Script, o *engine.Outcome) {
 			lv.opt.OnPanic = onPanic
 			if o.Guard("observe "+ad.Name, func() { lv.base = obs.Observe(lv.val, lv.opt) }) {
 				continue
+			}
+			if lv.fullOpt != nil {
+				if o.Guard("observe(full) "+ad.Name, func() { lv.fullBase = obs.Observe(lv.val, lv.fullOpt) }) {
+					lv.fullOpt = nil
+				}
 			}
 			live = append(live, lv)
 			lastFrame[b] = lv
@@ -316,6 +362,7 @@ func execute(s *engine.Script, o *engine.Outcome) {
 			if e <= a {
 				continue
 			}
+			touched(b, a, e)
 			scribbleBytes(pool[b][a:e], mode, uint64(op.N[3]))
 			copy(mirror[b], pool[b])
 			o.Fault("scribble:" + class)
